@@ -8,7 +8,12 @@ spec/C12/CRDTImpl.tla       M-spec: transcription of gcounter.go / aworset.go / 
 spec/C12/MCCRDT.tla         design level: M in lock step with P; ReadAgree, StateFn, semilattice laws, inflation
 spec/C12/CRDTObs.tla        P-level trace spec (verdicts: ReadOK, StateFn) over values recorded from the real code
 spec/C12/CRDTImplTrace.tla  M-level trace spec (conformance of dumps/reads to the transcription; drift only)
+spec/C12/CRDTObsRead.cfg    ReadOK alone (second fold of cases that broke a law, to see whether reads diverge too)
+spec/C12/MCPinned*.cfg      transcriptions of the pinned tree: must be rejected (vacuity); counterexamples -> directed cases
 harness/cmd/c12drv          replays the histories on the real CRDTValues + gob, records every value
+
+Environment: VERIF_SEED seeds the walk sampling, TLC -seed, the value universes and the sampled probes;
+VERIF_C12_CASES=<cases.ndjson> (development aid) replays a saved cases file instead of running the generators.
 """
 import concurrent.futures
 import json
